@@ -542,7 +542,7 @@ fn main() {
     "with limit (and candidate_size) < matches the engine groups a truncated candidate list: only the weaker invariants are judged (one hit per value, representative = best member, groups in best-hit order, inner hits are other members in inner-sort order, size respected)".into(),
     "scores of hits/inner hits are compared with the uncollapsed request's scores at 1e-5 relative".into(),
   ];
-  let n = ctx.n(300, 8000);
+  let n = ctx.n(300, 80_000);
   let per = if ctx.quick() { 20 } else { 40 };
   ctx.run_cases("corpus", n, |rng: &mut Rng, l: &mut Local, scratch| {
     let cfg = rk::CorpusCfg { min_docs: 10, max_docs: 80, max_groups: 12, allow_missing_grp: true, allow_multi_grp: true, max_commits: 4 };
